@@ -50,7 +50,7 @@ EXPECTED_PROBES = ["cls_Dataset", "cls_Dataset2d", "cls_Dataset3d", "cls_Dataset
                    "ndim_changed_by_getitem", "getitem_list", "getitem_ellipsis", "getitem_negative_step",
                    "getitem_partial", "length1_axis", "rejected_setter", "rejected_shape_arg",
                    "inplace_vs_copy_compared", "pairs_steered", "complex_dtype", "int_dtype",
-                   "axis_ge_16", "getitem_numpy_int_slice_step", "layout_F", "layout_strided", "layout_readonly", "layout_negstride"]
+                   "axis_ge_16", "getitem_numpy_int_slice_step", "bin_factor_equals_axis_length", "layout_F", "layout_strided", "layout_readonly", "layout_negstride"]
 
 _D = {}
 _registry0 = None
@@ -237,6 +237,8 @@ def _resolve_index(spec, shape):
             i = s["i"] % ln
             if s["i"] % 3 == 0 and i > 0:
                 i = i - ln  # negative index
+            elif i == 0 and s["i"] % 5 == 0:
+                i = -ln     # exactly -len
             items.append(np.int64(i) if s.get("np") else int(i))
         elif s["t"] == "slice":
             step = s["step"]
@@ -252,6 +254,12 @@ def _resolve_index(spec, shape):
                 stop = None
             elif s["open"] == 3:
                 start = stop = None
+            if s["b"] % 6 == 0:
+                # bounds far outside the axis (clipped by slice semantics)
+                if (step or 1) > 0:
+                    start, stop = -ln - 3, ln + 5
+                else:
+                    start, stop = ln + 5, -ln - 3
             sl = slice(start, stop, step)
             if len(range(ln)[sl]) == 0:
                 sl = slice(None, None, step)
@@ -620,6 +628,11 @@ def run(plan):
                     axs = sorted({x % nd for x in op["ax"][: 1 + op["ax"][4] % nd]})
                     axes = tuple(axs)
                 facs = [1 + op["f"][q % 5] % min(3, shape[ax]) for q, ax in enumerate(axs)]
+                if op["f"][4] % 4 == 0:
+                    # the whole range of factors, up to the axis length itself (one bin per axis)
+                    facs = [1 + op["f"][q % 5] % shape[ax] for q, ax in enumerate(axs)]
+                    if any(f == shape[ax] and f > 1 for f, ax in zip(facs, axs)):
+                        bump(probes, "bin_factor_equals_axis_length")
                 if op["fform"] == "int":
                     facs = [facs[0] if all(facs[0] <= shape[ax] for ax in axs) else 1] * len(axs)
                     farg = facs[0]
